@@ -28,6 +28,12 @@ pub fn c17_check_value(l: &Locale) -> Vec<Fail> {
     if raw != l.id {
         out.push(fail("langid-raw-parts-roundtrip", format!("from_raw_parts_unchecked(into_parts({})) = {}", l.id, raw)));
     }
+    // the pattern of the repository's own test (test_from_parts_unchecked): the variant Vec handed back as
+    // Some(boxed slice) whatever its length - sorted and duplicate-free, which is all the constructor asks for
+    let raw2 = LanguageIdentifier::from_raw_parts_unchecked(lang, s, r, Some(v.clone().into_boxed_slice()));
+    if raw2 != l.id || raw2.to_string() != l.id.to_string() {
+        out.push(fail("langid-raw-parts-roundtrip", format!("from_raw_parts_unchecked({:?}, {:?}, {:?}, Some(boxed {:?})) prints {} but is not equal to {} whose parts these are", lang, s, r, v, raw2, l.id)));
+    }
     // Locale: extension string re-parsed
     let (lang, s, r, v, e) = l.clone().into_parts();
     // (the statement only requires that the extension string re-parses to the same ExtensionsMap; its
